@@ -182,3 +182,49 @@ Proof.
   eexists. split; [vm_compute; reflexivity|]. split; [vm_compute; reflexivity|].
   split; [vm_compute; reflexivity|]. split; vm_compute; reflexivity.
 Qed.
+
+(** (3) FULL: the lemma's original compressed proof verifies against its slice, with the same statement
+    ([mm_verify] looks the lemma up by label and checks its proof against its own statement in each database;
+    the statement is the same because the slice ends with the lemma's block, [C17_slice_self_contained]).
+    All side conditions are decidable and hold for every valid Metamath database in the dialect of ast.py:
+    - [sym_disjoint db] (strengthens [consistent]): no declared variable is a parenthesis, a [$c] constant, a
+      typecode or the symbol of an application;
+    - [all_labels_unique db] (strengthens [unique_labels]): all statement labels are distinct;
+    - [compressed_lemma db lemma]: the proof starts with "(" (the slicer only handles compressed proofs; a
+      normal proof containing labels named "(" / ")" would be mis-sliced).
+    Proof (MM17/SliceVerifyProofs.v): simulation of the verifier's walk over the database prefix by its walk
+    over the slice (hypotheses filtered by needed variable, [$d] pairs filtered to the declared variables, equal
+    frames for every kept assertion, label table of the slice included in the database's), then
+    [check_proof_mono_refs]. *)
+From Pi2 Require Import MM17.VerifySpec MM17.SliceVerifyProofs.
+
+Theorem C17_slice_proof_verifies : forall db sd lemma s,
+  wf_db db = true -> sym_disjoint db = true -> all_labels_unique db -> compressed_lemma db lemma = true ->
+  slice sguards_fixed db sd lemma = Some s ->
+  mm_verify db lemma = true -> mm_verify s lemma = true.
+Proof. exact slice_proof_verifies. Qed.
+Print Assumptions C17_slice_proof_verifies.
+
+Example C17_slice_proof_verifies_nonvacuous :
+  wf_db ex_slice_db = true /\ sym_disjoint ex_slice_db = true /\ all_labels_unique ex_slice_db /\
+  compressed_lemma ex_slice_db "th1" = true /\ mm_verify ex_slice_db "th1" = true /\
+  exists s, slice sguards_fixed ex_slice_db [] "th1" = Some s.
+Proof.
+  split; [vm_compute; reflexivity|]. split; [vm_compute; reflexivity|]. split.
+  - unfold all_labels_unique. vm_compute. repeat (constructor; [simpl; intuition discriminate|]). constructor.
+  - split; [vm_compute; reflexivity|]. split; [vm_compute; reflexivity|]. eexists. vm_compute. reflexivity.
+Qed.
+
+(** [sym_disjoint] cannot be weakened to [consistent]: a declared variable used as the symbol of an application
+    is a constant for parser and slicer (its [$f] is dropped, it is declared by [$c] in the slice) but a variable
+    for Metamath, so the frames differ *)
+Example C17_slice_proof_verifies_needs_sym_disjoint :
+  exists db s, wf_db db = true /\ consistent db = true /\ sym_disjoint db = false /\
+    slice sguards_fixed db [] "th" = Some s /\ mm_verify db "th" = true /\ mm_verify s "th" = false.
+Proof.
+  exists [ SC ["wff"; "|-"; "("; ")"]; SV ["f"; "x"]; SF "wf" "wff" "f"; SF "wx" "wff" "x";
+           SA "ax" [App "|-" []; App "f" [MV "x"]];
+           SP "th" [App "|-" []; App "f" [MV "x"]] (Some ["("; "ax"; ")"; "ABC"]) ].
+  eexists. split; [vm_compute; reflexivity|]. split; [vm_compute; reflexivity|]. split; [vm_compute; reflexivity|].
+  split; [vm_compute; reflexivity|]. split; vm_compute; reflexivity.
+Qed.
